@@ -374,6 +374,16 @@ func decidePlan(p Plan) error {
 		}
 		return errors.New("the peer never received the final notification")
 	}
+	// the handler answers the peer's calls asynchronously: wait for those replies before closing
+	// (a reply that is still being produced when Close is called is not promised to anybody)
+	for deadline := time.Now().Add(10 * time.Second); ; time.Sleep(time.Millisecond) {
+		mu.Lock()
+		n := len(peerReplies)
+		mu.Unlock()
+		if n >= p.PeerCalls || time.Now().After(deadline) {
+			break
+		}
+	}
 	_ = conn.Close()
 	select {
 	case <-conn.Done():
